@@ -40,7 +40,7 @@ ROLE = {"TimeKeeper": "time", "ParticleReleaser": "release", "Forcing": "forcing
 
 
 def gen_cases(tier: str, seed: int) -> list[dict[str, Any]]:
-    n = 72 if tier == "quick" else 2000
+    n = 72 if tier == "quick" else 15000
     cases = []
     for i in range(n):
         rng = C.rng_for(seed, 19, i)
